@@ -3,7 +3,6 @@
 # and run every quick check against it (VERIF_REPO); all must exit 0. The worktree is removed afterwards.
 id=$1; base=${2:-HEAD}
 wt=/tmp/wt-eval-$id
-cp -a $ev/. /verif/evidence/; rm -rf $ev
 git -C /repo worktree remove --force $wt 2>/dev/null
 git -C /repo worktree add -q --detach $wt $base || exit 2
 cd $wt && git apply /verif/seeded/benign-$id/patch.diff || { echo "patch does not apply"; exit 2; }
